@@ -496,3 +496,889 @@ Proof.
       * cbn. lia.
       * cbn. rewrite (step_enabled _ _ _ (step_rel_opt _ _ _ R)). exact C.
 Qed.
+
+(* ====================================================================== *)
+(* the invariant behind C12_per_target_own, C12_isolation, C12_pending_clean *)
+(* ====================================================================== *)
+(* where an entry of a result comes from: [h] is the schedule so far *)
+Definition entry_prov (h : list label) (sends : list (N * N * bool)) (c : command)
+           (t : N) (e : entry) : Prop :=
+  match e with
+  | EReply p => In (LDeliver (c_id c) t p) h
+  | ESendErr => In (c_id c, t, false) sends
+  | ETimeout => exists w, nth_error (c_targets c) w = Some t /\ In (LTimeout (c_id c) w) h
+  | EOther => False
+  end.
+
+Lemma entry_prov_mono h h' s s' c t e :
+  (forall x, In x h -> In x h') -> (forall x, In x s -> In x s') ->
+  entry_prov h s c t e -> entry_prov h' s' c t e.
+Proof.
+  intros A B. destruct e; cbn; auto.
+  intros (w & X & Y). exists w. split; auto.
+Qed.
+
+(* targets whose worker has handed in its result *)
+Fixpoint fin_targets (ws : list wstate) (ts : list N) : list N :=
+  match ws, ts with
+  | w :: ws', t :: ts' => if is_fin w then t :: fin_targets ws' ts' else fin_targets ws' ts'
+  | _, _ => []
+  end.
+
+Lemma fin_targets_set_nonfin y : forall ws ts w x,
+  nth_error ws w = Some x -> is_fin x = false -> is_fin y = false ->
+  fin_targets (set_nth w y ws) ts = fin_targets ws ts.
+Proof.
+  induction ws as [|z ws IH]; intros [|t ts] [|w] x H FX FY; cbn in *; try discriminate;
+    try reflexivity.
+  - inversion H. subst. rewrite FX, FY. reflexivity.
+  - rewrite (IH ts w x H FX FY). reflexivity.
+Qed.
+
+Lemma fin_targets_set_fin : forall ws ts w x t,
+  nth_error ws w = Some x -> is_fin x = false -> nth_error ts w = Some t ->
+  Permutation (fin_targets (set_nth w WFin ws) ts) (t :: fin_targets ws ts).
+Proof.
+  induction ws as [|z ws IH]; intros [|u ts] [|w] x t H FX T; cbn in *; try discriminate.
+  - inversion H. inversion T. subst. rewrite FX. apply Permutation_refl.
+  - specialize (IH ts w x t H FX T). destruct (is_fin z).
+    + eapply perm_trans; [apply perm_skip, IH|apply perm_swap].
+    + exact IH.
+Qed.
+
+Lemma fin_targets_repeat_init n ts : fin_targets (repeat WInit n) ts = [].
+Proof.
+  revert ts. induction n as [|n IH]; intros [|t ts]; cbn; try reflexivity. apply IH.
+Qed.
+
+Lemma fin_targets_all : forall ws ts,
+  forallb is_fin ws = true -> length ws = length ts -> fin_targets ws ts = ts.
+Proof.
+  induction ws as [|z ws IH]; intros [|t ts] F L; cbn in *; try discriminate; try reflexivity.
+  apply andb_true_iff in F. destruct F as [F1 F2]. rewrite F1. f_equal. apply IH; [exact F2|lia].
+Qed.
+
+Lemma forallb_nth {A} (f : A -> bool) l w x :
+  forallb f l = true -> nth_error l w = Some x -> f x = true.
+Proof.
+  intros F H. apply nth_error_In in H. rewrite forallb_forall in F. apply F, H.
+Qed.
+
+Record InvA (h : list label) (st : state) : Prop := {
+  a_shape : shape_ok st;
+  a_pend : forall id t c, In ((id, t), c) (s_pending st) ->
+    exists k w ws, s_cur st = Some k /\ c_id (k_cmd k) = id /\
+      nth_error (c_targets (k_cmd k)) w = Some t /\
+      nth_error (k_workers k) w = Some ws /\ holds_call ws c = true;
+  a_fresh_w : forall k w ws c, s_cur st = Some k -> nth_error (k_workers k) w = Some ws ->
+    holds_call ws c = true -> c < s_next st;
+  a_fresh_o : forall c p, In (c, p) (s_offers st) -> c < s_next st;
+  a_uniq : forall k w1 w2 ws1 ws2 c, s_cur st = Some k ->
+    nth_error (k_workers k) w1 = Some ws1 -> nth_error (k_workers k) w2 = Some ws2 ->
+    holds_call ws1 c = true -> holds_call ws2 c = true -> w1 = w2;
+  a_offer : forall c p k w ws t, In (c, p) (s_offers st) -> s_cur st = Some k ->
+    nth_error (k_workers k) w = Some ws -> holds_call ws c = true ->
+    nth_error (c_targets (k_cmd k)) w = Some t ->
+    In (LDeliver (c_id (k_cmd k)) t p) h;
+  a_fail : forall k w c t, s_cur st = Some k -> nth_error (k_workers k) w = Some (WFail c) ->
+    nth_error (c_targets (k_cmd k)) w = Some t -> In (c_id (k_cmd k), t, false) (s_sends st);
+  a_to : forall k w c, s_cur st = Some k -> nth_error (k_workers k) w = Some (WTimedOut c) ->
+    In (LTimeout (c_id (k_cmd k)) w) h;
+  a_coll : forall k t e, s_cur st = Some k -> In (t, e) (k_coll k) ->
+    entry_prov h (s_sends st) (k_cmd k) t e;
+  a_perm : forall k, s_cur st = Some k ->
+    Permutation (map fst (k_coll k)) (fin_targets (k_workers k) (c_targets (k_cmd k)));
+  a_excl : forall ky c p, In (ky, c) (s_pending st) -> In (c, p) (s_offers st) -> False;
+  a_out : forall c r, In (c, r) (s_out st) ->
+    exists coll, r = consolidate coll /\ Permutation (map fst coll) (c_targets c) /\
+                 forall t e, In (t, e) coll -> entry_prov h (s_sends st) c t e
+}.
+
+Lemma invA_init : InvA [] init.
+Proof.
+  constructor; cbn; try (intros; discriminate); try (intros; contradiction).
+  exact I.
+Qed.
+
+Lemma holds_call_eq ws c d : holds_call ws c = true -> holds_call ws d = true -> c = d.
+Proof.
+  destruct ws; cbn; try discriminate; intros A B; apply N.eqb_eq in A, B; congruence.
+Qed.
+
+Lemma holds_not_fin ws c : holds_call ws c = true -> is_fin ws = false.
+Proof. destruct ws; cbn; try discriminate; reflexivity. Qed.
+
+Ltac som :=
+  repeat match goal with
+         | H : Some _ = Some _ |- _ => inversion H; clear H; subst
+         | H : None = Some _ |- _ => discriminate H
+         | H : Some _ = None |- _ => discriminate H
+         end.
+Ltac simp := cbn [s_queue s_cur s_pending s_offers s_next s_out s_sends
+                  k_cmd k_workers k_coll set_worker fin_worker] in *.
+Ltac ina := auto using in_or_app, in_eq, in_cons.
+
+(* replacing worker [w]'s state by one that holds the same call and is not finished *)
+Section SameCall.
+  Variables (h : list label) (st : state) (l : label) (k : commit) (w : nat)
+            (ws ws' : wstate) (snd' : list (N * N * bool)).
+  Hypothesis INV : InvA h st.
+  Hypothesis CUR : s_cur st = Some k.
+  Hypothesis NTH : nth_error (k_workers k) w = Some ws.
+  Hypothesis SAME : forall c, holds_call ws' c = holds_call ws c.
+  Hypothesis NF : is_fin ws = false.
+  Hypothesis NF' : is_fin ws' = false.
+  Hypothesis SENDS : forall x, In x (s_sends st) -> In x snd'.
+  Hypothesis FAIL : forall c t, ws' = WFail c -> nth_error (c_targets (k_cmd k)) w = Some t ->
+                                In (c_id (k_cmd k), t, false) snd'.
+  Hypothesis TO : forall c, ws' = WTimedOut c -> l = LTimeout (c_id (k_cmd k)) w.
+
+  Lemma invA_same_call :
+    InvA (h ++ [l]) (mkState (s_queue st) (Some (set_worker k w ws')) (s_pending st)
+                             (s_offers st) (s_next st) (s_out st) snd').
+  Proof.
+    destruct INV as [SH PE FW FO UQ OF FA TM CO PM EX OU].
+    constructor; simp.
+    - unfold shape_ok in *. simp. rewrite CUR in SH. rewrite set_nth_length. exact SH.
+    - intros id t c IN. destruct (PE id t c IN) as (k0 & w0 & ws0 & C0 & ID & T0 & W0 & H0).
+      rewrite CUR in C0. som. exists (set_worker k0 w ws'). simp.
+      destruct (Nat.eq_dec w w0) as [->|NE].
+      + exists w0, ws'. rewrite NTH in W0. som.
+        repeat split; auto. eapply nth_error_set_nth_eq; eassumption. rewrite SAME. exact H0.
+      + exists w0, ws0. repeat split; auto. rewrite nth_error_set_nth_neq; assumption.
+    - intros k0 w0 ws0 c C0 W0 H0. som. simp.
+      apply nth_error_set_nth in W0. destruct W0 as [[-> ->]|[NE W0]].
+      + rewrite SAME in H0. eapply FW; eassumption.
+      + eapply FW; eassumption.
+    - exact FO.
+    - intros k0 w1 w2 ws1 ws2 c C0 W1 W2 H1 H2. som. simp.
+      apply nth_error_set_nth in W1, W2.
+      destruct W1 as [[-> ->]|[NE1 W1]]; destruct W2 as [[-> ->]|[NE2 W2]];
+        rewrite ?SAME in *; try reflexivity; eapply UQ; eassumption.
+    - intros c p k0 w0 ws0 t IN C0 W0 H0 T0. som. simp. apply in_or_app. left.
+      apply nth_error_set_nth in W0. destruct W0 as [[-> ->]|[NE W0]].
+      + rewrite SAME in H0. eapply OF; eassumption.
+      + eapply OF; eassumption.
+    - intros k0 w0 c t C0 W0 T0. som. simp.
+      apply nth_error_set_nth in W0. destruct W0 as [[-> E]|[NE W0]].
+      + apply FAIL with c; auto.
+      + apply SENDS. eapply FA; eassumption.
+    - intros k0 w0 c C0 W0. som. simp.
+      apply nth_error_set_nth in W0. destruct W0 as [[-> E]|[NE W0]].
+      + apply in_or_app. right. rewrite (TO c) by auto. left. reflexivity.
+      + apply in_or_app. left. eapply TM; eassumption.
+    - intros k0 t e C0 IN. som. simp.
+      eapply entry_prov_mono; [| |eapply CO; eassumption]; ina.
+    - intros k0 C0. som. simp.
+      rewrite (fin_targets_set_nonfin ws' _ _ _ _ NTH NF NF'). apply PM, CUR.
+    - exact EX.
+    - intros c r IN. destruct (OU c r IN) as (coll & A & B & C).
+      exists coll. repeat split; auto. intros t e X.
+      eapply entry_prov_mono; [| |apply C, X]; ina.
+  Qed.
+End SameCall.
+
+(* worker [w] hands in its result *)
+Section Finish.
+  Variables (h : list label) (st : state) (l : label) (k : commit) (w : nat)
+            (ws : wstate) (t : N) (e : entry) (pend' : list (key * N)) (offers' : list (N * N)).
+  Hypothesis INV : InvA h st.
+  Hypothesis CUR : s_cur st = Some k.
+  Hypothesis NTH : nth_error (k_workers k) w = Some ws.
+  Hypothesis TGT : nth_error (c_targets (k_cmd k)) w = Some t.
+  Hypothesis NF : is_fin ws = false.
+  Hypothesis PEND : forall ky c, In (ky, c) pend' ->
+                                 In (ky, c) (s_pending st) /\ holds_call ws c = false.
+  Hypothesis OFFERS : forall x, In x offers' -> In x (s_offers st).
+  Hypothesis PROV : entry_prov (h ++ [l]) (s_sends st) (k_cmd k) t e.
+
+  Lemma invA_finish_worker :
+    InvA (h ++ [l]) (mkState (s_queue st) (Some (fin_worker k w t e)) pend' offers'
+                             (s_next st) (s_out st) (s_sends st)).
+  Proof.
+    destruct INV as [SH PE FW FO UQ OF FA TM CO PM EX OU].
+    constructor; simp.
+    - unfold shape_ok in *. simp. rewrite CUR in SH. rewrite set_nth_length. exact SH.
+    - intros id t0 c IN. destruct (PEND _ _ IN) as [IN0 NH].
+      destruct (PE id t0 c IN0) as (k0 & w0 & ws0 & C0 & ID & T0 & W0 & H0).
+      rewrite CUR in C0. som. exists (fin_worker k0 w t e). simp.
+      exists w0, ws0. repeat split; auto.
+      rewrite nth_error_set_nth_neq; [exact W0|].
+      intros ->. rewrite NTH in W0. som. congruence.
+    - intros k0 w0 ws0 c C0 W0 H0. som. simp.
+      apply nth_error_set_nth in W0. destruct W0 as [[-> ->]|[NE W0]]; [discriminate|].
+      eapply FW; eassumption.
+    - intros c p IN. eapply FO, OFFERS, IN.
+    - intros k0 w1 w2 ws1 ws2 c C0 W1 W2 H1 H2. som. simp.
+      apply nth_error_set_nth in W1, W2.
+      destruct W1 as [[-> ->]|[NE1 W1]]; [discriminate|].
+      destruct W2 as [[-> ->]|[NE2 W2]]; [discriminate|].
+      eapply UQ; eassumption.
+    - intros c p k0 w0 ws0 t0 IN C0 W0 H0 T0. som. simp. apply in_or_app. left.
+      apply nth_error_set_nth in W0. destruct W0 as [[-> ->]|[NE W0]]; [discriminate|].
+      eapply OF; try eassumption. apply OFFERS, IN.
+    - intros k0 w0 c t0 C0 W0 T0. som. simp.
+      apply nth_error_set_nth in W0. destruct W0 as [[-> E]|[NE W0]]; [discriminate|].
+      eapply FA; eassumption.
+    - intros k0 w0 c C0 W0. som. simp.
+      apply nth_error_set_nth in W0. destruct W0 as [[-> E]|[NE W0]]; [discriminate|].
+      apply in_or_app. left. eapply TM; eassumption.
+    - intros k0 t0 e0 C0 IN. som. simp. apply in_app_or in IN. destruct IN as [IN|[IN|[]]].
+      + eapply entry_prov_mono; [| |eapply CO; eassumption]; ina.
+      + inversion IN. subst. exact PROV.
+    - intros k0 C0. som. simp. rewrite map_app. cbn [map fst].
+      eapply perm_trans; [|apply Permutation_sym; eapply fin_targets_set_fin; eassumption].
+      eapply perm_trans; [apply Permutation_app_comm|]. cbn. apply perm_skip. apply PM, CUR.
+    - intros ky c p IN1 IN2. destruct (PEND _ _ IN1) as [IN0 _]. eapply EX; [exact IN0|apply OFFERS, IN2].
+    - intros c r IN. destruct (OU c r IN) as (coll & A & B & C).
+      exists coll. repeat split; auto. intros t0 e0 X.
+      eapply entry_prov_mono; [| |apply C, X]; ina.
+  Qed.
+End Finish.
+
+(* the queue plays no role in the invariant; the history only grows *)
+Lemma invA_queue_hist h st l q :
+  InvA h st ->
+  InvA (h ++ [l]) (mkState q (s_cur st) (s_pending st) (s_offers st) (s_next st)
+                           (s_out st) (s_sends st)).
+Proof.
+  intros [SH PE FW FO UQ OF FA TM CO PM EX OU]. constructor; simp; auto.
+  - intros. apply in_or_app. left. eapply OF; eassumption.
+  - intros. apply in_or_app. left. eapply TM; eassumption.
+  - intros. eapply entry_prov_mono; [| |eapply CO; eassumption]; ina.
+  - intros c r IN. destruct (OU c r IN) as (coll & A & B & C).
+    exists coll. repeat split; auto. intros t0 e0 X.
+    eapply entry_prov_mono; [| |apply C, X]; ina.
+Qed.
+
+Lemma invA_same_state h st l : InvA h st -> InvA (h ++ [l]) st.
+Proof.
+  intro I. pose proof (invA_queue_hist h st l (s_queue st) I) as X. destruct st. exact X.
+Qed.
+
+Lemma invA_no_cur_no_pending h st : InvA h st -> s_cur st = None -> s_pending st = [].
+Proof.
+  intros I C. destruct (s_pending st) as [|[[id t] c] r] eqn:P; [reflexivity|].
+  destruct (a_pend _ _ I id t c) as (k & _ & _ & C0 & _). { rewrite P. left. reflexivity. }
+  congruence.
+Qed.
+
+Lemma invA_step_rel h st l st' : InvA h st -> step_rel st l st' -> InvA (h ++ [l]) st'.
+Proof.
+  intros INV R. destruct R.
+  - (* enqueue *) apply invA_queue_hist. exact INV.
+  - (* start *)
+    pose proof (invA_no_cur_no_pending _ _ INV H) as PN.
+    destruct INV as [SH PE FW FO UQ OF FA TM CO PM EX OU]. rewrite PN in *.
+    constructor; simp.
+    + unfold shape_ok. simp. apply repeat_length.
+    + intros ? ? ? [].
+    + intros k0 w0 ws0 c0 C0 W0 H1. som. simp. apply nth_error_repeat in W0. subst. discriminate.
+    + exact FO.
+    + intros k0 w1 w2 ws1 ws2 c0 C0 W1 W2 H1 H2. som. simp. apply nth_error_repeat in W1. subst. discriminate.
+    + intros c0 p k0 w0 ws0 t IN C0 W0 H1. som. simp. apply nth_error_repeat in W0. subst. discriminate.
+    + intros k0 w0 c0 t C0 W0. som. simp. apply nth_error_repeat in W0. discriminate.
+    + intros k0 w0 c0 C0 W0. som. simp. apply nth_error_repeat in W0. discriminate.
+    + intros k0 t e C0 IN. som. simp. contradiction.
+    + intros k0 C0. som. simp. rewrite fin_targets_repeat_init. apply perm_nil.
+    + intros ? ? ? [].
+    + intros c0 r IN. destruct (OU c0 r IN) as (coll & A & B & C).
+      exists coll. repeat split; auto. intros t0 e0 X.
+      eapply entry_prov_mono; [| |apply C, X]; ina.
+  - (* register *)
+    destruct INV as [SH PE FW FO UQ OF FA TM CO PM EX OU].
+    constructor; simp.
+    + unfold shape_ok in *. simp. rewrite H in SH. rewrite set_nth_length. exact SH.
+    + intros id t0 c IN. destruct IN as [IN|IN].
+      * inversion IN. subst. exists (set_worker k w (WReg (s_next st))), w, (WReg (s_next st)). simp.
+        repeat split; auto. eapply nth_error_set_nth_eq; eassumption. cbn. apply N.eqb_refl.
+      * apply In_pend_del in IN. destruct IN as [IN _].
+        destruct (PE id t0 c IN) as (k0 & w0 & ws0 & C0 & ID & T0 & W0 & H2).
+        rewrite H in C0. som. exists (set_worker k0 w (WReg (s_next st))), w0, ws0. simp.
+        repeat split; auto. rewrite nth_error_set_nth_neq; [exact W0|].
+        intros ->. rewrite H0 in W0. som. discriminate.
+    + intros k0 w0 ws0 c C0 W0 H2. som. simp.
+      apply nth_error_set_nth in W0. destruct W0 as [[-> ->]|[NE W0]].
+      * cbn in H2. apply N.eqb_eq in H2. subst. lia.
+      * pose proof (FW _ _ _ _ H W0 H2). lia.
+    + intros c p IN. pose proof (FO c p IN). lia.
+    + intros k0 w1 w2 ws1 ws2 c C0 W1 W2 H2 H3. som. simp.
+      apply nth_error_set_nth in W1, W2.
+      destruct W1 as [[-> ->]|[NE1 W1]]; destruct W2 as [[-> ->]|[NE2 W2]]; try reflexivity.
+      * cbn in H2. apply N.eqb_eq in H2. subst. pose proof (FW _ _ _ _ H W2 H3). lia.
+      * cbn in H3. apply N.eqb_eq in H3. subst. pose proof (FW _ _ _ _ H W1 H2). lia.
+      * eapply UQ; eassumption.
+    + intros c p k0 w0 ws0 t0 IN C0 W0 H2 T0. som. simp. apply in_or_app. left.
+      apply nth_error_set_nth in W0. destruct W0 as [[-> ->]|[NE W0]].
+      * cbn in H2. apply N.eqb_eq in H2. subst. pose proof (FO _ _ IN). lia.
+      * eapply OF; eassumption.
+    + intros k0 w0 c t0 C0 W0 T0. som. simp.
+      apply nth_error_set_nth in W0. destruct W0 as [[-> E]|[NE W0]]; [discriminate|].
+      eapply FA; eassumption.
+    + intros k0 w0 c C0 W0. som. simp.
+      apply nth_error_set_nth in W0. destruct W0 as [[-> E]|[NE W0]]; [discriminate|].
+      apply in_or_app. left. eapply TM; eassumption.
+    + intros k0 t0 e C0 IN. som. simp.
+      eapply entry_prov_mono; [| |eapply CO; eassumption]; ina.
+    + intros k0 C0. som. simp.
+      rewrite (fin_targets_set_nonfin (WReg (s_next st)) _ _ _ _ H0) by reflexivity. apply PM, H.
+    + intros ky c p IN1 IN2. destruct IN1 as [IN1|IN1].
+      * inversion IN1. subst. pose proof (FO _ _ IN2). lia.
+      * apply In_pend_del in IN1. destruct IN1 as [IN1 _]. eapply EX; eassumption.
+    + intros c r IN. destruct (OU c r IN) as (coll & A & B & C).
+      exists coll. repeat split; auto. intros t0 e0 X.
+      eapply entry_prov_mono; [| |apply C, X]; ina.
+  - (* send ok *)
+    eapply invA_same_call with (ws := WReg c); try eassumption; try reflexivity; ina.
+    + intros c0 t0 E. discriminate.
+    + intros c0 E. discriminate.
+  - (* send error *)
+    eapply invA_same_call with (ws := WReg c); try eassumption; try reflexivity; ina.
+    + intros c0 t0 E T0. rewrite H1 in T0. som. ina.
+    + intros c0 E. discriminate.
+  - (* fail clean-up *)
+    eapply invA_finish_worker with (ws := WFail c); try eassumption; try reflexivity.
+    + intros ky c0 IN. apply In_pend_del in IN. destruct IN as [IN NE]. split; [exact IN|].
+      destruct (holds_call (WFail c) c0) eqn:HC; [|reflexivity]. exfalso.
+      destruct ky as [id0 t0].
+      destruct (a_pend _ _ INV id0 t0 c0 IN) as (k0 & w0 & ws0 & C0 & ID & T0 & W0 & H2).
+      rewrite H in C0. som.
+      assert (w = w0) by (eapply (a_uniq _ _ INV); eassumption). subst w0.
+      rewrite H1 in T0. som. apply NE. reflexivity.
+    + auto.
+    + cbn. apply (a_fail _ _ INV _ _ _ _ H H0 H1).
+  - (* receive *)
+    eapply invA_finish_worker with (ws := WWait c); try eassumption; try reflexivity.
+    + intros ky c0 IN. split; [exact IN|].
+      destruct (holds_call (WWait c) c0) eqn:HC; [|reflexivity]. exfalso.
+      cbn in HC. apply N.eqb_eq in HC. subst c0.
+      eapply (a_excl _ _ INV); [exact IN|]. apply offer_get_In. eassumption.
+    + intros x IN. eapply In_offer_del, IN.
+    + cbn. apply in_or_app. left.
+      eapply (a_offer _ _ INV); try eassumption.
+      * apply offer_get_In. eassumption.
+      * cbn. apply N.eqb_refl.
+  - (* time-out *)
+    eapply invA_same_call with (ws := WWait c); try eassumption; try reflexivity; ina.
+    + intros c0 t0 E. discriminate.
+  - (* time-out clean-up *)
+    eapply invA_finish_worker with (ws := WTimedOut c); try eassumption; try reflexivity.
+    + intros ky c0 IN. apply In_pend_del in IN. destruct IN as [IN NE]. split; [exact IN|].
+      destruct (holds_call (WTimedOut c) c0) eqn:HC; [|reflexivity]. exfalso.
+      destruct ky as [id0 t0].
+      destruct (a_pend _ _ INV id0 t0 c0 IN) as (k0 & w0 & ws0 & C0 & ID & T0 & W0 & H2).
+      rewrite H in C0. som.
+      assert (w = w0) by (eapply (a_uniq _ _ INV); eassumption). subst w0.
+      rewrite H1 in T0. som. apply NE. reflexivity.
+    + auto.
+    + cbn. exists w. split; [exact H1|]. apply in_or_app. left.
+      apply (a_to _ _ INV _ _ _ H H0).
+  - (* deliver, matched *)
+    pose proof (pend_get_In _ _ _ H) as PIN.
+    destruct (a_pend _ _ INV id t c PIN) as (k0 & w0 & ws0 & C0 & ID & T0 & W0 & H2).
+    destruct INV as [SH PE FW FO UQ OF FA TM CO PM EX OU].
+    constructor; simp; auto.
+    + intros id1 t1 c1 IN. apply In_pend_del in IN. destruct IN as [IN _]. apply PE, IN.
+    + intros c1 p1 [IN|IN].
+      * inversion IN. subst. eapply FW; eassumption.
+      * apply FO with p1, IN.
+    + intros c1 p1 k1 w1 ws1 t1 IN C1 W1 H3 T1. destruct IN as [IN|IN].
+      * inversion IN. subst c1 p1. rewrite C0 in C1. som.
+        assert (w0 = w1) by (eapply UQ; eassumption). subst w1.
+        rewrite T0 in T1. som. apply in_or_app. right. left. reflexivity.
+      * apply in_or_app. left. eapply OF; eassumption.
+    + intros. apply in_or_app. left. eapply TM; eassumption.
+    + intros. eapply entry_prov_mono; [| |eapply CO; eassumption]; ina.
+    + intros ky c1 p1 IN1 IN2. apply In_pend_del in IN1. destruct IN1 as [IN1 NE].
+      destruct IN2 as [IN2|IN2].
+      * inversion IN2. subst c1 p1. destruct ky as [id1 t1].
+        destruct (PE id1 t1 c IN1) as (k1 & w1 & ws1 & C1 & ID1 & T1 & W1 & H3).
+        rewrite C0 in C1. som.
+        assert (w0 = w1) by (eapply UQ; eassumption). subst w1.
+        rewrite T0 in T1. som. apply NE. reflexivity.
+      * eapply EX; eassumption.
+    + intros c0 r IN. destruct (OU c0 r IN) as (coll & A & B & C).
+      exists coll. repeat split; auto. intros t0 e0 X.
+      eapply entry_prov_mono; [| |apply C, X]; ina.
+  - (* deliver, dropped *) apply invA_same_state. exact INV.
+  - (* finish *)
+    assert (PN : s_pending st = []).
+    { destruct (s_pending st) as [|[[id t] c] r] eqn:P; [reflexivity|]. exfalso.
+      destruct (a_pend _ _ INV id t c) as (k0 & w0 & ws0 & C0 & _ & _ & W0 & H2).
+      { rewrite P. left. reflexivity. }
+      rewrite H in C0. som. pose proof (forallb_nth _ _ _ _ H0 W0) as F.
+      rewrite (holds_not_fin _ _ H2) in F. discriminate. }
+    pose proof (a_shape _ _ INV) as SHP. unfold shape_ok in SHP. rewrite H in SHP.
+    destruct INV as [SH PE FW FO UQ OF FA TM CO PM EX OU]. rewrite PN in *.
+    constructor; simp; try (intros; discriminate); auto.
+    + exact I.
+    + intros ? ? ? [].
+    + intros c r IN. apply in_app_or in IN. destruct IN as [IN|[IN|[]]].
+      * destruct (OU c r IN) as (coll & A & B & C).
+        exists coll. repeat split; auto. intros t0 e0 X.
+        eapply entry_prov_mono; [| |apply C, X]; ina.
+      * inversion IN. subst c r. exists (k_coll k). split; [reflexivity|]. split.
+        -- pose proof (PM _ H) as X. rewrite (fin_targets_all _ _ H0 SHP) in X. exact X.
+        -- intros t0 e0 X. eapply entry_prov_mono; [| |eapply CO; eassumption]; ina.
+Qed.
+
+Lemma invA_step h st l : InvA h st -> InvA (h ++ [l]) (step st l).
+Proof.
+  intro I. destruct (step_cases st l) as [R|[_ E]].
+  - eapply invA_step_rel; eassumption.
+  - rewrite E. apply invA_same_state, I.
+Qed.
+
+Lemma invA_run sched : InvA sched (run sched).
+Proof.
+  induction sched as [|l s IH] using rev_ind.
+  - exact invA_init.
+  - rewrite run_snoc. apply invA_step, IH.
+Qed.
+
+(* ====================================================================== *)
+(* consolidateResponses                                                    *)
+(* ====================================================================== *)
+Lemma mput_perm k v : forall m, ~ In k (map fst m) -> Permutation (mput k v m) ((k, v) :: m).
+Proof.
+  induction m as [|[k' v'] m IH]; cbn [mput map fst In]; intro NI.
+  - apply Permutation_refl.
+  - destruct (k =? k') eqn:E.
+    + apply N.eqb_eq in E. subst. exfalso. apply NI. left. reflexivity.
+    + destruct (k <? k'); [apply Permutation_refl|].
+      eapply perm_trans; [apply perm_skip, IH|apply perm_swap].
+      intro X. apply NI. right. exact X.
+Qed.
+
+Lemma build_map_perm_acc : forall coll acc,
+  NoDup (map fst coll) -> (forall k, In k (map fst coll) -> ~ In k (map fst acc)) ->
+  Permutation (fold_left (fun m kv => mput (fst kv) (snd kv) m) coll acc) (coll ++ acc).
+Proof.
+  induction coll as [|[k v] r IH]; intros acc ND DJ; cbn [fold_left app].
+  - apply Permutation_refl.
+  - cbn [map fst] in ND. inversion ND as [|? ? NI ND']. subst.
+    assert (P : Permutation (mput k v acc) ((k, v) :: acc)).
+    { apply mput_perm. apply DJ. left. reflexivity. }
+    cbn [fst snd].
+    eapply perm_trans.
+    + apply IH; [exact ND'|]. intros k0 IN X.
+      apply (Permutation_in _ (Permutation_map fst P)) in X. cbn in X. destruct X as [X|X].
+      * subst. contradiction.
+      * apply (DJ k0); [right; exact IN|exact X].
+    + eapply perm_trans; [apply Permutation_app_head, P|].
+      apply Permutation_sym, Permutation_middle.
+Qed.
+
+Lemma build_map_perm coll : NoDup (map fst coll) -> Permutation (build_map coll) coll.
+Proof.
+  intro ND. unfold build_map.
+  pose proof (build_map_perm_acc coll [] ND) as X. rewrite app_nil_r in X. apply X.
+  intros k _ [].
+Qed.
+
+(* the per-target content of a result *)
+Definition entries_of (c : command) (r : result) : list (N * entry) :=
+  match r with
+  | RSingle e => match c_targets c with [t] => [(t, e)] | _ => [] end
+  | RMulti m => m
+  | _ => []
+  end.
+Definition result_shape (c : command) (r : result) : Prop :=
+  match c_targets c, r with
+  | [], RNil => True
+  | [_], RSingle _ => True
+  | _ :: _ :: _, RMulti _ => True
+  | _, _ => False
+  end.
+
+Lemma consolidate_spec c coll :
+  NoDup (c_targets c) -> Permutation (map fst coll) (c_targets c) ->
+  Permutation (entries_of c (consolidate coll)) coll /\ result_shape c (consolidate coll).
+Proof.
+  intros ND P.
+  assert (ND' : NoDup (map fst coll)).
+  { eapply Permutation_NoDup; [apply Permutation_sym, P|exact ND]. }
+  pose proof (build_map_perm coll ND') as B.
+  pose proof (Permutation_length P) as L1. pose proof (Permutation_length B) as L2.
+  rewrite map_length in L1.
+  unfold consolidate, result_shape. destruct (build_map coll) as [|[t e] [|x m]] eqn:E.
+  - apply Permutation_nil in B. subst coll. cbn in P. apply Permutation_nil in P.
+    rewrite P. split; [apply perm_nil|exact I].
+  - apply Permutation_length_1_inv in B. subst coll. cbn in P.
+    apply Permutation_length_1_inv in P. rewrite P. cbn. rewrite P.
+    split; [apply Permutation_refl|exact I].
+  - cbn [entries_of]. split; [exact B|].
+    cbn in L2. destruct (c_targets c) as [|a [|b ts]]; cbn in L1; try lia; exact I.
+Qed.
+
+(* ====================================================================== *)
+(* no reply to a live call is lost (needs distinct targets)                 *)
+(* ====================================================================== *)
+Definition live (ws : wstate) (c : N) : Prop := ws = WReg c \/ ws = WWait c.
+
+Definition InvB (st : state) : Prop :=
+  forall k w ws c t, s_cur st = Some k -> NoDup (c_targets (k_cmd k)) ->
+    nth_error (k_workers k) w = Some ws -> live ws c ->
+    nth_error (c_targets (k_cmd k)) w = Some t ->
+    (forall p, ~ In (c, p) (s_offers st)) ->
+    pend_get (c_id (k_cmd k), t) (s_pending st) = Some c.
+
+Lemma live_holds ws c : live ws c -> holds_call ws c = true.
+Proof. intros [->| ->]; cbn; apply N.eqb_refl. Qed.
+
+Lemma nodup_nth_neq (l : list N) i j a b :
+  NoDup l -> nth_error l i = Some a -> nth_error l j = Some b -> i <> j -> a <> b.
+Proof.
+  intros ND A B NE E. subst b. apply NE.
+  rewrite NoDup_nth_error in ND. apply ND.
+  - apply nth_error_Some. congruence.
+  - congruence.
+Qed.
+
+Lemma key_neq_t (id t t' : N) : t <> t' -> (id, t) <> (id, t').
+Proof. intros NE E. inversion E. contradiction. Qed.
+
+Lemma invB_step_rel h st l st' : InvA h st -> InvB st -> step_rel st l st' -> InvB st'.
+Proof.
+  intros IA IB R. unfold InvB in *. destruct R; simp.
+  - exact IB.
+  - intros k0 w0 ws0 c0 t0 C0 ND W0 LV. som. simp. apply nth_error_repeat in W0. subst.
+    destruct LV; discriminate.
+  - (* register *)
+    intros k0 w0 ws0 c0 t0 C0 ND W0 LV T0 NO. som. simp. unfold pend_put.
+    apply nth_error_set_nth in W0. destruct W0 as [[-> ->]|[NE W0]].
+    + rewrite H1 in T0. som. cbn [pend_get]. rewrite key_eqb_refl.
+      destruct LV as [E|E]; inversion E. reflexivity.
+    + pose proof (nodup_nth_neq _ _ _ _ _ ND H1 T0 NE) as NT.
+      cbn [pend_get]. destruct (key_eqb (c_id (k_cmd k), t0) (c_id (k_cmd k), t)) eqn:KE.
+      * apply key_eqb_eq in KE. inversion KE. congruence.
+      * rewrite pend_get_del_other by (apply key_neq_t; congruence).
+        eapply IB; eassumption.
+  - (* send ok *)
+    intros k0 w0 ws0 c0 t0 C0 ND W0 LV T0 NO. som. simp.
+    apply nth_error_set_nth in W0. destruct W0 as [[-> ->]|[NE W0]].
+    + destruct LV as [E|E]; inversion E. subst. eapply IB; try eassumption. left. reflexivity.
+    + eapply IB; eassumption.
+  - (* send error *)
+    intros k0 w0 ws0 c0 t0 C0 ND W0 LV T0 NO. som. simp.
+    apply nth_error_set_nth in W0. destruct W0 as [[-> ->]|[NE W0]].
+    + destruct LV; discriminate.
+    + eapply IB; eassumption.
+  - (* fail clean-up *)
+    intros k0 w0 ws0 c0 t0 C0 ND W0 LV T0 NO. som. simp.
+    apply nth_error_set_nth in W0. destruct W0 as [[-> ->]|[NE W0]]; [destruct LV; discriminate|].
+    pose proof (nodup_nth_neq _ _ _ _ _ ND H1 T0 NE) as NT.
+    rewrite pend_get_del_other by (apply key_neq_t; congruence). eapply IB; eassumption.
+  - (* receive *)
+    intros k0 w0 ws0 c0 t0 C0 ND W0 LV T0 NO. som. simp.
+    apply nth_error_set_nth in W0. destruct W0 as [[-> ->]|[NE W0]]; [destruct LV; discriminate|].
+    eapply IB; try eassumption. intros p0 IN.
+    destruct (N.eq_dec c0 c) as [->|NC].
+    + apply NE. eapply (a_uniq _ _ IA); try eassumption.
+      * cbn. apply N.eqb_refl.
+      * apply live_holds, LV.
+    + apply (NO p0). apply In_offer_del_other; assumption.
+  - (* time-out *)
+    intros k0 w0 ws0 c0 t0 C0 ND W0 LV T0 NO. som. simp.
+    apply nth_error_set_nth in W0. destruct W0 as [[-> ->]|[NE W0]].
+    + destruct LV; discriminate.
+    + eapply IB; eassumption.
+  - (* time-out clean-up *)
+    intros k0 w0 ws0 c0 t0 C0 ND W0 LV T0 NO. som. simp.
+    apply nth_error_set_nth in W0. destruct W0 as [[-> ->]|[NE W0]]; [destruct LV; discriminate|].
+    pose proof (nodup_nth_neq _ _ _ _ _ ND H1 T0 NE) as NT.
+    rewrite pend_get_del_other by (apply key_neq_t; congruence). eapply IB; eassumption.
+  - (* deliver, matched *)
+    intros k0 w0 ws0 c0 t0 C0 ND W0 LV T0 NO.
+    assert (G : pend_get (c_id (k_cmd k0), t0) (s_pending st) = Some c0).
+    { eapply IB; try eassumption. intros p0 IN. apply (NO p0). right. exact IN. }
+    destruct (key_eqb (id, t) (c_id (k_cmd k0), t0)) eqn:KE.
+    + apply key_eqb_eq in KE. rewrite KE in H. rewrite H in G. som.
+      exfalso. apply (NO p). left. reflexivity.
+    + apply key_eqb_neq in KE. rewrite pend_get_del_other by congruence. exact G.
+  - exact IB.
+  - intros; discriminate.
+Qed.
+
+Lemma invB_run sched : InvB (run sched).
+Proof.
+  induction sched as [|l s IH] using rev_ind.
+  - intros k w ws c t C. discriminate.
+  - rewrite run_snoc. destruct (step_cases (run s) l) as [R|[_ E]].
+    + eapply invB_step_rel; [apply invA_run|exact IH|exact R].
+    + rewrite E. exact IH.
+Qed.
+
+(* ====================================================================== *)
+(* the harness-level runs are runs                                         *)
+(* ====================================================================== *)
+Lemma find_some_in {A} (f : A -> bool) l x : find f l = Some x -> In x l /\ f x = true.
+Proof. apply find_some. Qed.
+
+Lemma internal_candidates_internal st l : In l (internal_candidates st) -> internal_label l = true.
+Proof.
+  unfold internal_candidates. destruct (s_cur st) as [k|].
+  - intros [<-|IN]; [reflexivity|]. apply in_flat_map in IN. destruct IN as (w & _ & IN).
+    cbn in IN. repeat (destruct IN as [<-|IN]; [reflexivity|]). contradiction.
+  - intros [<-|[]]. reflexivity.
+Qed.
+
+Lemma settle_fuel_run : forall fuel st,
+  exists s, settle_fuel fuel st = run_from st s /\ forall l, In l s -> internal_label l = true.
+Proof.
+  induction fuel as [|f IH]; intro st; cbn [settle_fuel].
+  - exists []. split; [reflexivity|intros l []].
+  - destruct (first_internal st) as [l|] eqn:F.
+    + destruct (IH (step st l)) as (s & E & A). exists (l :: s). split; [exact E|].
+      intros x [<-|X]; [|apply A, X].
+      unfold first_internal in F. apply find_some in F. destruct F as [F _].
+      eapply internal_candidates_internal, F.
+    + exists []. split; [reflexivity|intros l []].
+Qed.
+
+Lemma hrun_is_run_from : forall script st,
+  exists s, fold_left hstep script st = run_from st s /\
+            forall l, In l s -> In l script \/ internal_label l = true.
+Proof.
+  induction script as [|l script IH]; intro st; cbn [fold_left].
+  - exists []. split; [reflexivity|intros l []].
+  - unfold hstep at 2. unfold settle.
+    destruct (settle_fuel_run (measure (step st l)) (step st l)) as (s1 & E1 & A1).
+    rewrite E1. destruct (IH (run_from (step st l) s1)) as (s2 & E2 & A2).
+    exists (l :: s1 ++ s2). split.
+    + rewrite E2. cbn [run_from fold_left]. change (fold_left step (s1 ++ s2) (step st l))
+        with (run_from (step st l) (s1 ++ s2)). rewrite run_from_app. reflexivity.
+    + intros x [<-|X]; [left; left; reflexivity|]. apply in_app_or in X. destruct X as [X|X].
+      * right. apply A1, X.
+      * destruct (A2 x X) as [Y|Y]; [left; right; exact Y|right; exact Y].
+Qed.
+
+Lemma hrun_is_run script :
+  exists sched, hrun script = run sched /\
+                forall l, In l sched -> In l script \/ internal_label l = true.
+Proof.
+  unfold hrun, settle.
+  destruct (settle_fuel_run (measure init) init) as (s0 & E0 & A0). rewrite E0.
+  destruct (hrun_is_run_from script (run_from init s0)) as (s & E & A).
+  exists (s0 ++ s). split.
+  - rewrite E. unfold run. rewrite run_from_app. reflexivity.
+  - intros l X. apply in_app_or in X. destruct X as [X|X]; [right; apply A0, X|apply A, X].
+Qed.
+
+(* ====================================================================== *)
+(* the statements used by props/C12.v                                      *)
+(* ====================================================================== *)
+
+(* --- exactly once --- *)
+Lemma enq_cmds_progress ext :
+  (forall l, In l ext -> progress_label l = true) -> enq_cmds ext = [].
+Proof.
+  induction ext as [|l ext IH]; intro A; [reflexivity|].
+  unfold enq_cmds in *. cbn [flat_map]. rewrite IH by (intros x X; apply A; right; exact X).
+  specialize (A l (or_introl eq_refl)). destruct l; cbn in A; try discriminate; reflexivity.
+Qed.
+
+Lemma completes_exactly_once sched :
+  exists ext, (forall l, In l ext -> progress_label l = true) /\
+              (length ext <= measure (run sched))%nat /\
+              map fst (s_out (run (sched ++ ext))) = enq_cmds sched.
+Proof.
+  destruct (completes_without_replies (measure (run sched)) (run sched) (shape_run sched)
+                                      (le_n _)) as (ext & A & B & C & Q).
+  exists ext. split; [exact A|]. split; [exact B|].
+  pose proof (fifo_accounting (sched ++ ext)) as F.
+  unfold run in *. rewrite run_from_app in F |- *.
+  unfold cur_cmds in F. rewrite C, Q in F. cbn in F. rewrite app_nil_r in F.
+  rewrite F, enq_cmds_app, (enq_cmds_progress ext A). apply app_nil_r.
+Qed.
+
+Lemma progress_measure :
+  (forall st l st', progress_label l = true -> step_rel st l st' ->
+                    (measure st' < measure st)%nat) /\
+  (forall st id t p, measure (step st (LDeliver id t p)) = measure st) /\
+  (forall st, shape_ok st -> measure st <> O ->
+              exists l st', progress_label l = true /\ step_rel st l st') /\
+  (forall st, measure st = O <-> s_cur st = None /\ s_queue st = []).
+Proof.
+  split; [exact progress_decreases|]. split; [exact deliver_measure|].
+  split; [exact progress_exists|exact measure_zero].
+Qed.
+
+(* --- per target: own reply or an error --- *)
+Lemma out_collected sched c r :
+  In (c, r) (s_out (run sched)) ->
+  In c (enq_cmds sched) /\
+  exists coll, r = consolidate coll /\ Permutation (map fst coll) (c_targets c) /\
+               forall t e, In (t, e) coll -> entry_prov sched (s_sends (run sched)) c t e.
+Proof.
+  intro IN. split.
+  - rewrite <- fifo_accounting. apply in_or_app. left.
+    change c with (fst (c, r)). apply in_map, IN.
+  - apply (a_out _ _ (invA_run sched)), IN.
+Qed.
+
+Lemma per_target_own sched c r :
+  In (c, r) (s_out (run sched)) -> NoDup (c_targets c) ->
+  result_shape c r /\
+  Permutation (map fst (entries_of c r)) (c_targets c) /\
+  forall t e, In (t, e) (entries_of c r) -> entry_prov sched (s_sends (run sched)) c t e.
+Proof.
+  intros IN ND. destruct (out_collected sched c r IN) as (_ & coll & -> & P & PR).
+  destruct (consolidate_spec c coll ND P) as [PE SH].
+  split; [exact SH|]. split.
+  - eapply perm_trans; [apply Permutation_map, PE|exact P].
+  - intros t e X. apply PR. eapply Permutation_in; [exact PE|exact X].
+Qed.
+
+(* --- isolation --- *)
+Lemma deliver_dropped st id t p :
+  pend_get (id, t) (s_pending st) = None -> step st (LDeliver id t p) = st.
+Proof. intro G. unfold step. cbn [step_opt]. rewrite G. reflexivity. Qed.
+
+Lemma deliver_frame st id t p :
+  let st' := step st (LDeliver id t p) in
+  s_cur st' = s_cur st /\ s_queue st' = s_queue st /\ s_out st' = s_out st /\
+  s_sends st' = s_sends st /\ s_next st' = s_next st /\
+  (forall ky, ky <> (id, t) -> pend_get ky (s_pending st') = pend_get ky (s_pending st)) /\
+  (forall c q, In (c, q) (s_offers st) -> In (c, q) (s_offers st')).
+Proof.
+  unfold step. cbn [step_opt]. destruct (pend_get (id, t) (s_pending st)) eqn:G; cbn.
+  - repeat split; auto. intros ky NE. apply pend_get_del_other, NE.
+  - repeat split; auto.
+Qed.
+
+(* the only reply that has any effect is one for the command in progress, from a target of
+   that command whose call is registered and still unanswered; its whole effect is to
+   take that call out of the pending map and to offer the payload to that call *)
+Lemma deliver_effect sched id t p :
+  let st := run sched in
+  step st (LDeliver id t p) = st \/
+  exists k w ws c,
+    s_cur st = Some k /\ c_id (k_cmd k) = id /\
+    nth_error (c_targets (k_cmd k)) w = Some t /\
+    nth_error (k_workers k) w = Some ws /\ holds_call ws c = true /\
+    step st (LDeliver id t p) =
+      mkState (s_queue st) (s_cur st) (pend_del (id, t) (s_pending st))
+              ((c, p) :: s_offers st) (s_next st) (s_out st) (s_sends st).
+Proof.
+  cbn zeta. destruct (pend_get (id, t) (s_pending (run sched))) as [c|] eqn:G.
+  - right. destruct (a_pend _ _ (invA_run sched) id t c (pend_get_In _ _ _ G))
+      as (k & w & ws & C & ID & T & W & HC).
+    exists k, w, ws, c. repeat split; auto.
+    unfold step. cbn [step_opt]. rewrite G. reflexivity.
+  - left. apply deliver_dropped, G.
+Qed.
+
+Lemma deliver_other_command sched id t p :
+  (forall k, s_cur (run sched) = Some k -> c_id (k_cmd k) <> id) ->
+  step (run sched) (LDeliver id t p) = run sched.
+Proof.
+  intro NC. destruct (deliver_effect sched id t p) as [E|(k & w & ws & c & C & ID & _)].
+  - exact E.
+  - exfalso. apply (NC k C ID).
+Qed.
+
+(* a reply carrying an id that no command in progress has (never issued, already answered,
+   still queued) can be removed from any schedule without changing anything *)
+Lemma foreign_reply_irrelevant s1 s2 id t p :
+  (forall k, s_cur (run s1) = Some k -> c_id (k_cmd k) <> id) ->
+  run (s1 ++ LDeliver id t p :: s2) = run (s1 ++ s2).
+Proof.
+  intro NC. unfold run. rewrite !run_from_app. cbn [run_from fold_left].
+  change (run_from init s1) with (run s1). rewrite (deliver_other_command s1 id t p NC).
+  reflexivity.
+Qed.
+
+(* --- pending is clean --- *)
+Lemma pending_owned sched id t c :
+  In ((id, t), c) (s_pending (run sched)) ->
+  exists k w ws, s_cur (run sched) = Some k /\ c_id (k_cmd k) = id /\
+                 nth_error (c_targets (k_cmd k)) w = Some t /\
+                 nth_error (k_workers k) w = Some ws /\ holds_call ws c = true.
+Proof. apply (a_pend _ _ (invA_run sched)). Qed.
+
+Lemma pending_clean sched :
+  s_cur (run sched) = None -> s_pending (run sched) = [].
+Proof. apply invA_no_cur_no_pending with sched, invA_run. Qed.
+
+Lemma pending_clean_after_answer sched c r id t call :
+  In (c, r) (s_out (run sched)) -> In ((id, t), call) (s_pending (run sched)) ->
+  exists k, s_cur (run sched) = Some k /\ c_id (k_cmd k) = id /\
+            exists a b, enq_cmds sched = a ++ c :: b /\ In (k_cmd k) b.
+Proof.
+  intros IN PIN. destruct (pending_owned sched id t call PIN) as (k & _ & _ & C & ID & _).
+  exists k. split; [exact C|]. split; [exact ID|].
+  pose proof (fifo_accounting sched) as F. unfold cur_cmds in F. rewrite C in F.
+  apply in_split in IN. destruct IN as (o1 & o2 & E). rewrite E in F.
+  rewrite map_app in F. cbn [map fst] in F. rewrite <- app_assoc in F. cbn [app] in F.
+  exists (map fst o1), (map fst o2 ++ [k_cmd k] ++ s_queue (run sched)).
+  split; [symmetry; exact F|]. apply in_or_app. right. left. reflexivity.
+Qed.
+
+(* --- no reply to a live call is lost: needs distinct targets --- *)
+Definition reply_reaches_live_call_for (sched : list label) : Prop :=
+  forall k w ws c t p,
+    s_cur (run sched) = Some k ->
+    nth_error (k_workers k) w = Some ws -> live ws c ->
+    nth_error (c_targets (k_cmd k)) w = Some t ->
+    (forall q, ~ In (c, q) (s_offers (run sched))) ->
+    offer_get c (s_offers (step (run sched) (LDeliver (c_id (k_cmd k)) t p))) = Some p.
+
+Lemma reply_reaches_live_call sched :
+  (forall c, In c (enq_cmds sched) -> NoDup (c_targets c)) ->
+  reply_reaches_live_call_for sched.
+Proof.
+  intros ND k w ws c t p C W LV T NO.
+  assert (NDk : NoDup (c_targets (k_cmd k))).
+  { apply ND. rewrite <- fifo_accounting. apply in_or_app. right. apply in_or_app. left.
+    unfold cur_cmds. rewrite C. left. reflexivity. }
+  pose proof (invB_run sched k w ws c t C NDk W LV T NO) as G.
+  unfold step. cbn [step_opt]. rewrite G. cbn. rewrite N.eqb_refl. reflexivity.
+Qed.
+
+Definition dup_witness : list label :=
+  [LEnqueue (mkCmd 1 [7; 7]); LStart; LRegister 0; LRegister 1; LSendOk 1 0; LSendOk 1 1;
+   LTimeout 1 0; LTimeoutCleanup 0].
+
+Lemma reply_lost_with_duplicate_target : ~ (forall sched, reply_reaches_live_call_for sched).
+Proof.
+  intro H.
+  specialize (H dup_witness (mkCommit (mkCmd 1 [7; 7]) [WFin; WWait 1] [(7, ETimeout)])
+                1%nat (WWait 1) 1 7 55).
+  vm_compute in H.
+  assert (X : None = Some 55); [|discriminate X].
+  apply H; try reflexivity.
+  - right. reflexivity.
+  - intros q [].
+Qed.
+
+(* and the time-out of the other worker is then all the command reports for that target *)
+Lemma duplicate_target_result :
+  s_out (run (dup_witness ++ [LDeliver 1 7 55; LTimeout 1 1; LTimeoutCleanup 1; LFinish])) =
+  [(mkCmd 1 [7; 7], RSingle ETimeout)].
+Proof. vm_compute. reflexivity. Qed.
+
+(* --- responder left blocked on Done (leak; outside the property) --- *)
+Definition leak_witness : list label :=
+  [LEnqueue (mkCmd 1 [7]); LStart; LRegister 0; LDeliver 1 7 55; LSendErr 1 0; LFailCleanup 0;
+   LFinish].
+
+Lemma responder_left_blocked :
+  let st := run leak_witness in
+  s_cur st = None /\ s_queue st = [] /\ s_pending st = [] /\
+  s_out st = [(mkCmd 1 [7], RSingle ESendErr)] /\ s_offers st = [(0, 55)].
+Proof. vm_compute. repeat split; reflexivity. Qed.
+
+(* --- non-vacuity material --- *)
+Definition example_sched : list label :=
+  [LEnqueue (mkCmd 1 [10; 11; 12]); LEnqueue (mkCmd 2 [10]); LStart;
+   LRegister 0; LRegister 1; LRegister 2;
+   LDeliver 2 10 90;                       (* reply to a command still queued: dropped *)
+   LDeliver 1 10 100;                      (* reply before SendFunc returned *)
+   LSendOk 1 0; LRecv 0; LSendErr 1 1; LFailCleanup 1; LSendOk 1 2;
+   LDeliver 1 10 101;                      (* duplicate reply: dropped *)
+   LDeliver 9 12 102;                      (* foreign id: dropped *)
+   LTimeout 1 2; LDeliver 1 12 103;        (* reply racing the time-out: responder stays blocked *)
+   LTimeoutCleanup 2; LFinish; LStart; LRegister 0; LSendOk 2 0;
+   LDeliver 1 12 104;                      (* late reply to the answered command: dropped *)
+   LDeliver 2 10 105; LRecv 0; LFinish].
